@@ -63,13 +63,13 @@ Print Assumptions C09_no_run_after_stop_example.
 
 (* "startup/shutdown time triggers have run exactly once per definition/removal": in every reachable world, for every
    trigger unit: at most one startup run and at most one shutdown run are in the log; a started unit with the startup
-   flag has exactly one startup run; no shutdown run while its function is active; a stopped legacy trigger with the
+   flag (and no dispatch fault) has exactly one startup run; no shutdown run while its function is active; a stopped legacy trigger with the
    shutdown flag has exactly one. *)
 Theorem C09_startup_shutdown_once : forall cfg, all_off cfg -> forall (ops : list op),
   let W := run_ops cfg ops world0 in
   forall f u, In f (w_funcs W) -> In u (f_units f) ->
     (count_run RStartup (u_id u) (w_log W) <= 1)%nat /\ (count_run RShutdown (u_id u) (w_log W) <= 1)%nat /\
-    (In (u_id u) (w_running W) -> u_startup u = true -> count_run RStartup (u_id u) (w_log W) = 1%nat) /\
+    (In (u_id u) (w_running W) -> u_startup u = true -> u_crash u = false -> count_run RStartup (u_id u) (w_log W) = 1%nat) /\
     (In (f_gen f) (w_active W) -> count_run RShutdown (u_id u) (w_log W) = 0%nat) /\
     (f_new f = false -> ~ In (f_gen f) (w_active W) -> u_shutdown u = true -> count_run RShutdown (u_id u) (w_log W) = 1%nat).
 Proof. exact startup_shutdown_once. Qed.
@@ -115,6 +115,21 @@ Theorem C09_examples_refused_and_overtaken :
   [(true, []); (true, []); (true, [1]); (true, [3; 1; 4])].
 Proof. exact (conj ex_refused ex_overtake). Qed.
 Print Assumptions C09_examples_refused_and_overtaken.
+
+(* D92: a module imported inside a Jupyter cell is loaded with auto_start off and nobody starts its context: its
+   functions run for nothing until the next pyscript.reload (both subsystems) *)
+Theorem C09_refuted_D92 : forall newsys,
+  map r_gen (w_log (run_ops cfg_only92 (ops_D92 newsys) world0)) = [] /\
+  map r_gen (w_log (run_ops cfg_off (ops_D92 newsys) world0)) = [1; 1; 1].
+Proof. exact refuted_D92. Qed.
+Print Assumptions C09_refuted_D92.
+
+(* fault point "every dispatch of the function raises" (e.g. @time_active with an impossible date): the watchers die
+   at the first occurrence, the function never runs through a trigger, stopping the context leaves the empty ledger *)
+Theorem C09_example_dispatch_fault : forall newsys, let W := run_ops cfg_off (ops_crash newsys) world0 in
+  w_led W = ledger0 /\ map (fun r => rkind_code (r_kind r)) (w_log W) = (if newsys then [5] else [5; 4]).
+Proof. exact ex_crash. Qed.
+Print Assumptions C09_example_dispatch_fault.
 
 (* D91 (legacy): a trigger stopped before its task ran subscribes afterwards; the entries survive even unload *)
 Theorem C09_refuted_D91 :
